@@ -280,11 +280,23 @@ def perturb_once(c, kind, rng, stats):
     return None
 
 
-def insert_extended_arg(c, ins, rng, only_jumps=False, max_units=3):
+def insert_extended_arg(c, ins, rng, only_jumps=False, max_units=3, prefer_noline=False):
     """Put a redundant `EXTENDED_ARG 0` in front of one instruction, fixing jumps and the line table."""
     cands = [i for i, x in enumerate(ins) if x[3] < max_units and x[1] >= HAVE_ARG and (not only_jumps or x[1] in HASJABS or x[1] in HASJREL)]
     if not cands:
         return None
+    if prefer_noline and V310:
+        # instructions inside a "no line" range of the 3.10 line table (artificial jumps back to a loop header):
+        # their JSON form has no line_number, so an override is the only optional key they carry
+        noline, pos = [], 0
+        ltab = c.co_linetable
+        for i in range(0, len(ltab) - 1, 2):
+            if ltab[i + 1] == 0x80:
+                noline.append((pos, pos + ltab[i]))
+            pos += ltab[i]
+        pref = [i for i in cands if any(a <= ins[i][0] < b for a, b in noline)]
+        if pref and rng.chance(0.7):
+            cands = pref
     k = rng.choice(cands)
     o = ins[k][0]  # insertion offset: every later offset moves by 2
     unit = 2 if V310 else 1  # jump operands count instructions on 3.10, bytes before
